@@ -316,11 +316,9 @@ func parseContractFile(path string, pkgPath string, ps *PkgSpec) error {
 				cur.Impls = append(cur.Impls, ie)
 			case "assert":
 				// assert call N <expr>: must hold just before the N-th call instruction of the function
+				// assert call N expr | assert call Name#k expr (the k-th call of a function/method called Name)
 				if len(fields) < 4 || fields[1] != "call" {
-					return fail(l, "assert call N expr")
-				}
-				if _, err := strconv.Atoi(fields[2]); err != nil {
-					return fail(l, "assert call N: %v", err)
+					return fail(l, "assert call N|Name#k expr")
 				}
 				txt := strings.TrimSpace(rest[strings.Index(rest, fields[2])+len(fields[2]):])
 				c, err := mkClause(l, "assert", "", txt)
@@ -328,6 +326,12 @@ func parseContractFile(path string, pkgPath string, ps *PkgSpec) error {
 					return err
 				}
 				key := "call#" + fields[2]
+				if _, err := strconv.Atoi(fields[2]); err != nil {
+					if !strings.Contains(fields[2], "#") {
+						return fail(l, "assert call N|Name#k expr")
+					}
+					key = "call:" + fields[2]
+				}
 				c.Ord = len(cur.Asserts[key]) + 1
 				cur.Asserts[key] = append(cur.Asserts[key], c)
 			case "inline":
